@@ -1,13 +1,13 @@
 package main
 
 import (
-	"verif/refcodec"
 	"encoding/json"
 	"fmt"
 	"io"
 	"os"
 	"path/filepath"
 	"time"
+	"verif/refcodec"
 
 	"github.com/klev-dev/klevdb"
 )
